@@ -708,6 +708,18 @@ def check_roundtrip(rec: Rec, case: dict) -> None:
             raise Violation("size-untruthful", f"writer.size={size_before} but {len(body)} bytes were written")
         if size_before is None and not writer_uses_encoding(spec) and not any(p["kind"] == "aiter" for p in all_leaves(spec)):
             rec.label("size-none-without-reason")
+        # the other way of producing the body: as_bytes() (what client middlewares hash or sign) must be the
+        # bytes write() sends; async-iterable parts have no as_bytes by contract and are left out
+        if not any(p["kind"] == "aiter" for p in all_leaves(spec)):
+            w2 = build_writer(spec)
+            try:
+                ab = loop.drive(w2.as_bytes())
+            except Exception as e:  # noqa: BLE001
+                raise Violation(hyp.exc_key(e, "as-bytes-raised"), f"MultipartWriter.as_bytes raised {type(e).__name__}: {e}")
+            if ab != body:
+                raise Violation("as-bytes-differs-from-write",
+                                f"as_bytes() gives {len(ab)} bytes {_short(ab)} but write() sent {len(body)} bytes {_short(body)}")
+            rec.label("as-bytes-compared")
         stream, ops = make_stream(loop, case["limit"], budget=None)
         stats = {"chunks": 0, "nested": 0, "line_limit": case["limit"] * 2}
         reader = MultipartReader({hdrs.CONTENT_TYPE: w.headers[hdrs.CONTENT_TYPE]}, stream)
